@@ -1,9 +1,612 @@
-import StarsimModel.Model.TimePar
+/-
+C06 — Time-unit conversion preserves physical quantities.
+
+Property theorems and non-vacuity examples only.  Model: Model/TimePar.lean (`time_ratio`, the TimePar classes);
+helper lemmas: Lemmas/TimePar.lean (ℚ), Lemmas/TimeParReal.lean (ℝ: the same generic definitions with
+`Real.exp`/`Real.log`).  The unit table, the alias table and the default-dt constants are regenerated from
+/repo/starsim/time.py on every run (Generated/TimeUnits.lean, Generated/TimeParConsts.lean); the theorems
+hold for ANY table that meets the `decide`-checked obligations below (positive lengths, consistent aliases),
+so changing a constant (e.g. month = 30) re-instantiates them rather than breaking them.
+-/
+import StarsimModel.Lemmas.TimePar
+import StarsimModel.Lemmas.TimeParReal
 
 namespace StarsimModel.C06
 open StarsimModel.TimePar
 
-/-- every unit of the regenerated table has a positive length (obligation on the regenerated table) -/
-theorem C06_unit_lengths_positive : ∀ r ∈ Gen.timeUnits, 0 < r.2 := by decide +kernel
+/-! ### Obligations on the regenerated tables -/
+
+/-- every unit of `time_units` has a positive length -/
+theorem C06_unit_lengths_positive : ∀ r ∈ Gen.timeUnits, 0 < r.2 := table_lengths_positive
+
+/-- every alias is mapped to the canonical unit of its own row (no alias occurs in two rows), canonical names
+    are fixed points, and every canonical unit except "unitless" has a length -/
+theorem C06_aliases_consistent :
+    (∀ r ∈ Gen.unitAliases, ∀ a ∈ r.2, (canonUnit (some a)).toOption = some (some r.1)) ∧
+    (∀ r ∈ Gen.unitAliases, (canonUnit (some r.1)).toOption = some (some r.1)) ∧
+    (∀ r ∈ Gen.unitAliases, r.1 = "unitless" ∨ (unitLen r.1).isSome = true) ∧
+    (∀ r ∈ Gen.timeUnits, (canonUnit (some r.1)).toOption = some (some r.1)) := by decide +kernel
+
+/-- the default step lengths the code falls back to are positive -/
+theorem C06_default_dts_positive : 0 < Gen.defaultSelfDt ∧ 0 < Gen.initFallbackDt ∧ 0 < Gen.toDefaultDt := by decide +kernel
+
+/-! ### `time_ratio`: closed form, reciprocity, transitivity -/
+
+/-- **Closed form.** For all units of the table and all dt (non-zero denominator) the factor is
+    `(dt1/dt2)·(len u1/len u2)`; the `==` short-cuts of the code agree with it. -/
+theorem C06_ratio_formula {a b : String} {x y d1 d2 : Rat} (ha : unitLen a = some x) (hb : unitLen b = some y) (h2 : d2 ≠ 0) :
+    timeRatio (some a) (some d1) (some b) (some d2) = .ok ((d1 / d2) * (x / y)) := timeRatio_known ha hb h2
+
+/-- **Reciprocal**, for every input on which both directions are defined (all units, `None`, unitless, all dt). -/
+theorem C06_ratio_reciprocal {u1 u2 : UnitT} {d1 d2 : Option Rat} {r s : Rat}
+    (h12 : timeRatio u1 d1 u2 d2 = .ok r) (h21 : timeRatio u2 d2 u1 d1 = .ok s) : r * s = 1 ∧ s = r⁻¹ := by
+  have h := timeRatio_trans h12 h21
+  rw [timeRatio_self] at h
+  have h1 : r * s = 1 := by injection h with h; exact h.symm
+  exact ⟨h1, (eq_inv_of_mul_eq_one_right h1)⟩
+
+/-- both directions ARE defined for all units of the table and all non-zero dt -/
+theorem C06_ratio_reciprocal_defined {a b : String} {x y d1 d2 : Rat} (ha : unitLen a = some x) (hb : unitLen b = some y)
+    (h1 : d1 ≠ 0) (h2 : d2 ≠ 0) :
+    ∃ r s, timeRatio (some a) (some d1) (some b) (some d2) = .ok r ∧ timeRatio (some b) (some d2) (some a) (some d1) = .ok s ∧
+      r * s = 1 ∧ r ≠ 0 := by
+  refine ⟨_, _, timeRatio_known ha hb h2, timeRatio_known hb ha h1, ?_, ?_⟩
+  · have := ne_of_gt (unitLen_pos ha); have := ne_of_gt (unitLen_pos hb); field_simp
+  · have := ne_of_gt (unitLen_pos ha); have := ne_of_gt (unitLen_pos hb); positivity
+
+/-- **Transitive**, for every input the code accepts. -/
+theorem C06_ratio_transitive {u1 u2 u3 : UnitT} {d1 d2 d3 : Option Rat} {r s : Rat}
+    (h12 : timeRatio u1 d1 u2 d2 = .ok r) (h23 : timeRatio u2 d2 u3 d3 = .ok s) :
+    timeRatio u1 d1 u3 d3 = .ok (r * s) := timeRatio_trans h12 h23
+
+/-- one of the dt is `None` and the other is not: ValueError -/
+theorem C06_ratio_rejects_missing_dt (u1 u2 : UnitT) (d : Rat) :
+    timeRatio u1 none u2 (some d) = .error .value ∧ timeRatio u1 (some d) u2 none = .error .value := by
+  simp [timeRatio, dtRatio]
+
+/-- exactly one side unitless: ValueError -/
+theorem C06_ratio_rejects_mixed_unitless (a : String) (d1 d2 : Rat) (h2 : d2 ≠ 0) (ha : isUnitless (some a) = false) :
+    timeRatio (some a) (some d1) (some "unitless") (some d2) = .error .value := by
+  have hu : isUnitless (some "unitless") = true := by decide +kernel
+  have hne : (some a : UnitT) ≠ some "unitless" := by
+    intro h; rw [h, hu] at ha; exact absurd ha (by decide)
+  simp [timeRatio, dtRatio_some h2, unitRatio, hne, ha, hu]
+
+/-! ### Rejections -/
+
+/-- a unit name outside the alias table is refused by `validate_units` (constructor, `set`, `init`) … -/
+theorem C06_rejects_unknown_unit {α : Type} (k : Kind) (v : Val α) (s : String) (pu : UnitT) (pdt sdt : Option Rat)
+    (hs : Gen.unitAliases.find? (fun r => r.2.contains s) = none) :
+    canonUnit (some s) = .error .value ∧ mk k v (some s) pu pdt sdt = .error .value := by
+  have h : canonUnit (some s) = .error .value := by simp only [canonUnit]; rw [hs]
+  refine ⟨h, ?_⟩
+  unfold mk validateUnits
+  simp only [h]
+
+/-- … and by `time_ratio` (KeyError) when it has to be converted to a different unit -/
+theorem C06_ratio_rejects_unknown_unit (s b : String) (d1 d2 : Rat) (h2 : d2 ≠ 0) (hsb : s ≠ b)
+    (hs : unitLen s = none) (hu : isUnitless (some s) = false) (hb : isUnitless (some b) = false) :
+    timeRatio (some s) (some d1) (some b) (some d2) = .error .key := by
+  simp [timeRatio, dtRatio_some h2, unitRatio, hsb, hu, hb, hs]
+
+example : Gen.unitAliases.find? (fun r => r.2.contains "fortnight") = none := by decide +kernel
+
+/-- a probability outside [0,1] is a ValueError, scalar branch -/
+theorem C06_rejects_prob_outside_unit_interval {α : Type} {o : NumOps α} (law : LawfulOrd o) {k : Kind}
+    (hk : k.isTimeProb = true) (f v : α) (hv : o.lt v o.zero = true ∨ o.lt o.one v = true) :
+    convScalar o k f v = .error .value := by
+  have hz : o.beq v o.zero = false := by
+    rcases hv with h | h
+    · have := (law.lt_iff _ _).mp h
+      cases hb : o.beq v o.zero with
+      | false => rfl
+      | true => exact absurd ((law.beq_iff _ _).mp hb) this.2
+    · cases hb : o.beq v o.zero with
+      | false => rfl
+      | true =>
+          have e := (law.beq_iff _ _).mp hb
+          rw [e] at h
+          have h01 := (law.lt_iff _ _).mp law.zero_lt_one
+          exact absurd h ((law.le_iff_not_lt _ _).mp h01.1)
+  have ho : o.beq v o.one = false := by
+    rcases hv with h | h
+    · cases hb : o.beq v o.one with
+      | false => rfl
+      | true =>
+          have e := (law.beq_iff _ _).mp hb
+          rw [e] at h
+          have h01 := (law.lt_iff _ _).mp law.zero_lt_one
+          exact absurd h ((law.le_iff_not_lt _ _).mp h01.1)
+    · have := (law.lt_iff _ _).mp h
+      cases hb : o.beq v o.one with
+      | false => rfl
+      | true => exact absurd ((law.beq_iff _ _).mp hb).symm this.2
+  have hr : (o.le o.zero v && o.le v o.one) = false := by
+    rcases hv with h | h
+    · have : o.le o.zero v = false := by
+        cases hl : o.le o.zero v with
+        | false => rfl
+        | true => exact absurd h ((law.le_iff_not_lt _ _).mp hl)
+      simp [this]
+    · have : o.le v o.one = false := by
+        cases hl : o.le v o.one with
+        | false => rfl
+        | true => exact absurd h ((law.le_iff_not_lt _ _).mp hl)
+      simp [this]
+  cases k <;> simp [Kind.isTimeProb] at hk <;> simp [convScalar, hz, ho, hr]
+
+/-- … and array branch: one invalid element makes the whole update raise (after assigning the converted copy) -/
+theorem C06_rejects_prob_outside_unit_interval_array {α : Type} (o : NumOps α) {k : Kind} (hk : k.isTimeProb = true)
+    (f : α) (l : List α) (hf : o.beq f o.zero = false) (x : α) (hx : x ∈ l)
+    (hv : o.lt x o.zero = true ∨ o.lt o.one x = true) :
+    (convVal o k f (.array l)).2 = .error .value := by
+  have hany : l.any (invalidElem o k) = true := by
+    rw [List.any_eq_true]
+    refine ⟨x, hx, ?_⟩
+    cases k <;> simp [Kind.isTimeProb] at hk <;> (simp [invalidElem]; rcases hv with h | h <;> simp [h])
+  simp [convVal, hf, hany]
+
+/-- a negative rate is refused: scalar branch (as is: the error message itself fails, an AttributeError) and array branch (ValueError) -/
+theorem C06_rejects_negative_rate {α : Type} {o : NumOps α} (law : LawfulOrd o) (f v : α) (hv : o.lt v o.zero = true) :
+    convScalar o .rateProb f v = .error .attr ∧
+    ∀ l : List α, v ∈ l → o.beq f o.zero = false → (convVal o .rateProb f (.array l)).2 = .error .value := by
+  have hne := (law.lt_iff _ _).mp hv
+  have hz : o.beq v o.zero = false := by
+    cases hb : o.beq v o.zero with
+    | false => rfl
+    | true => exact absurd ((law.beq_iff _ _).mp hb) hne.2
+  have hp : o.lt o.zero v = false := by
+    cases hl : o.lt o.zero v with
+    | false => rfl
+    | true => exact absurd hl ((law.le_iff_not_lt _ _).mp hne.1)
+  refine ⟨by simp [convScalar, hz, hp], ?_⟩
+  intro l hl hf
+  have hany : l.any (invalidElem o .rateProb) = true := by
+    rw [List.any_eq_true]; exact ⟨v, hl, by simp [invalidElem, hv]⟩
+  simp [convVal, hf, hany]
+
+/-- a refused update with `die=True` leaves the object uninitialised -/
+theorem C06_init_error_not_initialized {α : Type} (o : NumOps α) (t : TP α) (vp : Bool) (pu : UnitT) (pdt ex : Option Rat)
+    (uv : Bool) (e : Err) (hi : t.initialized = false)
+    (h : (updateCached o (inherit t pu pdt) uv true).2 = .error e) :
+    (init o t vp pu pdt ex uv true).2 ≠ .ok () ∧ (init o t vp pu pdt ex uv true).1.initialized = false := by
+  unfold init
+  by_cases hc : (vp && ex.isSome) = true
+  · simp [hc, hi]
+  · simp only [hc]
+    have hrfl : updateCached o (inherit t pu pdt) uv true = ((updateCached o (inherit t pu pdt) uv true).1, .error e) := by
+      rw [← h]
+    rw [hrfl]
+    have hinit : (updateCached o (inherit t pu pdt) uv true).1.initialized = false := by
+      unfold updateCached
+      cases updateFactor (inherit t pu pdt) with
+      | error e' => simp [inherit, hi]
+      | ok f =>
+        simp only []
+        cases uv with
+        | false => simp [inherit, hi]
+        | true =>
+          simp only [if_true]
+          rcases convVal o (inherit t pu pdt).kind (o.ofRat f) (inherit t pu pdt).v with ⟨_ | vals, r⟩ <;> simp [inherit, hi]
+    simp [hinit]
+
+/-! ### `dur` and `rate`: the step identities -/
+
+/-- what `update_cached` stores for an algebraic kind with known units -/
+theorem updateCached_dur (t : TP Rat) (hk : t.kind = .dur) {u pu : String} {lu lpu s p : Rat}
+    (hu : t.unit = some u) (hpu : t.parentUnit = some pu) (hs : t.selfDt = some s) (hp : t.parentDt = some p)
+    (hlu : unitLen u = some lu) (hlpu : unitLen pu = some lpu) (hp0 : p ≠ 0) (die : Bool) :
+    updateCached ratOps t true die =
+      ({ t with factor := some ((s / p) * (lu / lpu)), values := some (t.v.map (· * ((s / p) * (lu / lpu)))) }, .ok ()) := by
+  have hf : updateFactor t = .ok ((s / p) * (lu / lpu)) := by
+    simp [updateFactor, hu, hpu, hs, hp, timeRatio_known hlu hlpu hp0]
+  unfold updateCached
+  rw [hf]
+  simp only [if_true, hk, ratOps_ofRat, convVal_dur]
+  cases die <;> rfl
+
+theorem updateCached_rate (t : TP Rat) (hk : t.kind = .rate) {u pu : String} {lu lpu s p : Rat}
+    (hu : t.unit = some u) (hpu : t.parentUnit = some pu) (hs : t.selfDt = some s) (hp : t.parentDt = some p)
+    (hlu : unitLen u = some lu) (hlpu : unitLen pu = some lpu) (hp0 : p ≠ 0) (hs0 : s ≠ 0) (die : Bool) :
+    updateCached ratOps t true die =
+      ({ t with factor := some ((s / p) * (lu / lpu)), values := some (t.v.map (· / ((s / p) * (lu / lpu)))) }, .ok ()) := by
+  have hf : updateFactor t = .ok ((s / p) * (lu / lpu)) := by
+    simp [updateFactor, hu, hpu, hs, hp, timeRatio_known hlu hlpu hp0]
+  have hne : (s / p) * (lu / lpu) ≠ 0 := by
+    have := ne_of_gt (unitLen_pos hlu); have := ne_of_gt (unitLen_pos hlpu); positivity
+  unfold updateCached
+  rw [hf]
+  simp only [if_true, hk, ratOps_ofRat, convVal_rate hne]
+  cases die <;> rfl
+
+/-- **Duration in steps × step length = the duration in its own unit** (both sides in days):
+    `values · dt_parent · len(parent unit) = v · self_dt · len(unit)`, scalar and array, all units, all dt. -/
+theorem C06_dur_steps (t : TP Rat) (hk : t.kind = .dur) {u pu : String} {lu lpu s p : Rat}
+    (hu : t.unit = some u) (hpu : t.parentUnit = some pu) (hs : t.selfDt = some s) (hp : t.parentDt = some p)
+    (hlu : unitLen u = some lu) (hlpu : unitLen pu = some lpu) (hp0 : p ≠ 0) (die : Bool) :
+    (updateCached ratOps t true die).2 = .ok () ∧
+    (updateCached ratOps t true die).1.values = some (t.v.map (· * ((s / p) * (lu / lpu)))) ∧
+    ∀ x : Rat, (x * ((s / p) * (lu / lpu))) * (p * lpu) = x * (s * lu) := by
+  rw [updateCached_dur t hk hu hpu hs hp hlu hlpu hp0 die]
+  refine ⟨rfl, rfl, fun x => ?_⟩
+  have := ne_of_gt (unitLen_pos hlpu)
+  field_simp
+
+/-- **A per-step rate divided by the step length = the rate in its own unit**:
+    `values / (dt_parent · len(parent)) = v / (self_dt · len(unit))`. -/
+theorem C06_rate_steps (t : TP Rat) (hk : t.kind = .rate) {u pu : String} {lu lpu s p : Rat}
+    (hu : t.unit = some u) (hpu : t.parentUnit = some pu) (hs : t.selfDt = some s) (hp : t.parentDt = some p)
+    (hlu : unitLen u = some lu) (hlpu : unitLen pu = some lpu) (hp0 : p ≠ 0) (hs0 : s ≠ 0) (die : Bool) :
+    (updateCached ratOps t true die).2 = .ok () ∧
+    (updateCached ratOps t true die).1.values = some (t.v.map (· / ((s / p) * (lu / lpu)))) ∧
+    ∀ x : Rat, (x / ((s / p) * (lu / lpu))) / (p * lpu) = x / (s * lu) := by
+  rw [updateCached_rate t hk hu hpu hs hp hlu hlpu hp0 hs0 die]
+  refine ⟨rfl, rfl, fun x => ?_⟩
+  have := ne_of_gt (unitLen_pos hlpu); have := ne_of_gt (unitLen_pos hlu)
+  field_simp
+
+/-- **Parent inheritance** (`TimePar.init`): a given parent unit/dt wins; a missing own unit is the parent's; a missing
+    parent unit is the own unit; a missing parent dt is `self_dt`, then the fallback constant. -/
+theorem C06_init_inherits {α : Type} (t : TP α) (pu : UnitT) (pdt : Option Rat) :
+    (∀ x, pu = some x → (inherit t pu pdt).parentUnit = some x) ∧
+    (∀ d, pdt = some d → (inherit t pu pdt).parentDt = some d) ∧
+    (∀ x, t.unit = some x → (inherit t pu pdt).unit = some x) ∧
+    (t.unit = none → (inherit t pu pdt).unit = orElse pu t.parentUnit) ∧
+    (pu = none → t.parentUnit = none → (inherit t pu pdt).parentUnit = t.unit) ∧
+    (pdt = none → t.parentDt = none → (inherit t pu pdt).parentDt = orElse t.selfDt (some Gen.initFallbackDt)) ∧
+    (inherit t pu pdt).v = t.v ∧ (inherit t pu pdt).selfDt = t.selfDt ∧ (inherit t pu pdt).kind = t.kind := by
+  refine ⟨?_, ?_, ?_, ?_, ?_, ?_, rfl, rfl, rfl⟩
+  · intro x h; subst h; simp [inherit, orElse]
+  · intro d h; subst h; simp [inherit, orElse]
+  · intro x h; simp [inherit, orElse, h]
+  · intro h; simp [inherit, orElse, h]
+  · intro h1 h2; subst h1; simp [inherit, orElse, h2]; cases t.unit <;> rfl
+  · intro h1 h2; subst h1; simp [inherit, orElse, h2]
+
+/-- `init` through keywords on a well-formed `dur`: initialised, linked to the parent, `values` = the converted duration -/
+theorem C06_init_dur (v : Val Rat) {u pu : String} {lu lpu p : Rat}
+    (hlu : unitLen u = some lu) (hlpu : unitLen pu = some lpu) (hp0 : p ≠ 0)
+    (hnu : canonUnit (some u) = .ok (some u)) (hnpu : canonUnit (some pu) = .ok (some pu)) :
+    ∃ t t', mk .dur v (some u) none none (some 1) = .ok t ∧
+      init ratOps t false (some pu) (some p) none true true = (t', .ok ()) ∧
+      t'.initialized = true ∧ t'.parentUnit = some pu ∧ t'.parentDt = some p ∧
+      t'.values = some (v.map (· * ((1 / p) * (lu / lpu)))) := by
+  have hv := validateUnits_of (a := (⟨.dur, v, some u, none, none, some 1, none, none, false⟩ : TP Rat)) (u := some u) (pu := none) hnu rfl
+  have hmk : mk .dur v (some u) none none (some 1) = .ok ⟨.dur, v, some u, none, none, some 1, none, none, false⟩ := by
+    simp only [mk, hv]
+  refine ⟨_, ⟨.dur, v, some u, some pu, some p, some 1, some ((1 / p) * (lu / lpu)), some (v.map (· * ((1 / p) * (lu / lpu)))), true⟩,
+          hmk, ?_, rfl, rfl, rfl, rfl⟩
+  unfold init
+  simp only [Bool.false_and, Bool.false_eq_true, if_false]
+  rw [updateCached_dur (u := u) (pu := pu) (s := 1) (p := p) (lu := lu) (lpu := lpu) _ rfl rfl rfl rfl rfl hlu hlpu hp0]
+  simp only
+  rw [validateUnits_of (u := some u) (pu := some pu) hnu hnpu]
+  rfl
+
+/-! ### `to`: converting and converting back -/
+
+/-- **Round trip.** `x.to(u, d).to(x.unit, x.self_dt)` has the original value — `dur` and `rate`, scalar and array,
+    every target unit/dt for which both conversions are defined. -/
+theorem C06_to_roundtrip (t : TP Rat) (hk : t.kind = .dur ∨ t.kind = .rate) {u0 : String} {s0 : Rat}
+    (hu : t.unit = some u0) (hs : t.selfDt = some s0) (u : UnitT) (d : Option Rat) (y z : TP Rat)
+    (h1 : convertTo ratOps t u d = .ok y) (h2 : convertTo ratOps y (some u0) (some s0) = .ok z) :
+    z.v = t.v ∧ z.unit = t.unit ∧ z.selfDt = t.selfDt := by
+  obtain ⟨f1, vals1, hf1, hc1, rfl⟩ := convertTo_ok h1
+  obtain ⟨f2, vals2, hf2, hc2, rfl⟩ := convertTo_ok h2
+  simp only [rebuilt, tgtUnit, tgtDt, orElse_some, ratOps_ofRat] at hf2 hc2 ⊢
+  have hprod : f1 * f2 = 1 := by
+    have h := timeRatio_trans hf1 hf2
+    rw [hu, hs, timeRatio_self] at h
+    injection h with h; exact h.symm
+  have h10 : f1 ≠ 0 := left_ne_zero_of_mul_eq_one hprod
+  have h20 : f2 ≠ 0 := right_ne_zero_of_mul_eq_one hprod
+  refine ⟨?_, hu.symm, hs.symm⟩
+  rcases hk with hk | hk
+  · rw [hk] at hc1 hc2
+    rw [ratOps_ofRat, convVal_dur] at hc1
+    rw [convVal_dur] at hc2
+    simp only [Prod.mk.injEq, Option.some.injEq, and_true] at hc1 hc2
+    rw [← hc2, ← hc1, Val.map_map]
+    exact Val.map_id' _ (fun x => by simp only [Function.comp]; rw [mul_assoc, hprod, mul_one]) _
+  · rw [hk] at hc1 hc2
+    rw [ratOps_ofRat, convVal_rate h10] at hc1
+    rw [convVal_rate h20] at hc2
+    simp only [Prod.mk.injEq, Option.some.injEq, and_true] at hc1 hc2
+    rw [← hc2, ← hc1, Val.map_map]
+    refine Val.map_id' _ (fun x => ?_) _
+    simp only [Function.comp]
+    rw [div_div, hprod, div_one]
+
+/-! ### Arithmetic -/
+
+/-- **`mul`/`div`/`neg` act on `v`** and rebuild the object; dt fields are kept and the units are only normalised -/
+theorem C06_arith_on_v {α : Type} (o : NumOps α) (t t' : TP α) (w : Val α) (h : withV o t w = .ok t') :
+    t'.v = w ∧ t'.kind = t.kind ∧ t'.selfDt = t.selfDt ∧ t'.parentDt = t.parentDt ∧
+    canonUnit t.unit = .ok t'.unit ∧ canonUnit t.parentUnit = .ok t'.parentUnit := by
+  unfold withV at h
+  -- the object handed to `validate_units` has the new `v` and the receiver's other fields
+  have key : ∀ (a : TP α), a.v = w → a.kind = t.kind → a.selfDt = t.selfDt → a.parentDt = t.parentDt → a.unit = t.unit →
+      a.parentUnit = t.parentUnit → validateUnits a = (t', .ok ()) →
+      t'.v = w ∧ t'.kind = t.kind ∧ t'.selfDt = t.selfDt ∧ t'.parentDt = t.parentDt ∧
+      canonUnit t.unit = .ok t'.unit ∧ canonUnit t.parentUnit = .ok t'.parentUnit := by
+    intro a hv hk hs hp hu hpu hval
+    obtain ⟨c1, c2, e1, e2, e3, e4, _, _, _⟩ := validateUnits_ok hval
+    exact ⟨e1.trans hv, e2.trans hk, e3.trans hs, e4.trans hp, hu ▸ c1, hpu ▸ c2⟩
+  unfold setPars at h
+  simp only [Option.getD_some, orElse_none] at h
+  by_cases hi : (t.initialized || false) = true
+  · simp only [hi, if_true] at h
+    generalize hg : updateCached o { t with v := w } true true = res at h
+    obtain ⟨a, r⟩ := res
+    have hh := updateCached_frame o { t with v := w } true true
+    rw [hg] at hh
+    obtain ⟨h1, h2, h3, h4, h5, h6, _⟩ := hh
+    cases r with
+    | error e => simp at h
+    | ok _ =>
+      simp only at h
+      rcases hval : validateUnits a with ⟨b, _ | _⟩
+      · rw [hval] at h; simp at h
+      · rw [hval] at h
+        simp only [Except.ok.injEq] at h
+        subst h
+        exact key a h1 h2 h3 h4 h5 h6 hval
+  · simp only [hi] at h
+    rcases hval : validateUnits { t with v := w } with ⟨b, _ | _⟩
+    · rw [hval] at h; simp at h
+    · rw [hval] at h
+      simp only [Bool.false_eq_true, if_false, Except.ok.injEq] at h
+      subst h
+      exact key { t with v := w } rfl rfl rfl rfl rfl rfl hval
+
+/-- **`mul` is linear on `values`** for `dur` and `rate`: converting `v·c` gives `values·c` (scalar and array) -/
+theorem C06_mul_linear (k : Kind) (hk : k = .dur ∨ k = .rate) {f : Rat} (hf : f ≠ 0) (v : Val Rat) (c : Rat) :
+    ∃ vals, convVal ratOps k f v = (some vals, .ok ()) ∧
+      convVal ratOps k f (v.map (· * c)) = (some (vals.map (· * c)), .ok ()) := by
+  rcases hk with rfl | rfl
+  · refine ⟨_, convVal_dur f v, ?_⟩
+    rw [convVal_dur, Val.map_map, Val.map_map]
+    have : ((fun x : Rat => x * f) ∘ fun x => x * c) = ((fun x => x * c) ∘ fun x => x * f) := by
+      funext x; simp [Function.comp]; ring
+    rw [this]
+  · refine ⟨_, convVal_rate hf v, ?_⟩
+    rw [convVal_rate hf, Val.map_map, Val.map_map]
+    have : ((fun x : Rat => x / f) ∘ fun x => x * c) = ((fun x => x * c) ∘ fun x => x / f) := by
+      funext x; simp [Function.comp]; ring
+    rw [this]
+
+/-- `add`/`sub`/`rsub`/`pow` return plain numbers computed from `values`; without `values` they are a TypeError -/
+theorem C06_add_on_values {α : Type} (o : NumOps α) (t : TP α) (c : α) :
+    (∀ vals, t.values = some vals → addC o t c = .ok (vals.map (fun x => o.add x c)) ∧ subC o t c = .ok (vals.map (fun x => o.sub x c)) ∧
+        rsubC o t c = .ok (vals.map (fun x => o.sub c x))) ∧
+    (t.values = none → addC o t c = .error .type) := by
+  constructor
+  · intro vals h; simp [addC, subC, rsubC, onValues, h]
+  · intro h; simp [addC, onValues, h]
+
+/-! ### The array branch equals the scalar branch elementwise -/
+
+/-- **Array = scalar.** For every kind, every factor ≠ 0 and every array: the ndarray branch of `update_values`
+    succeeds iff the scalar branch succeeds on every element, and then its i-th value is the scalar result
+    (incl. the 0 and 1 special cases of the probability kinds). -/
+theorem C06_array_eq_scalar {α : Type} {o : NumOps α} (law : LawfulOrd o) (k : Kind) (f : α) (hf : o.beq f o.zero = false)
+    (l : List α) :
+    ((convVal o k f (.array l)).2 = .ok () ↔ ∀ x ∈ l, ∃ y, convScalar o k f x = .ok y) ∧
+    ((convVal o k f (.array l)).2 = .ok () → ∀ x ∈ l, convScalar o k f x = .ok (convElem o k f x)) ∧
+    (convVal o k f (.array l)).1 = some (.array (l.map (convElem o k f))) := by
+  -- elementwise: valid ↔ scalar ok, with the same value
+  have elem : ∀ x, (invalidElem o k x = false → convScalar o k f x = .ok (convElem o k f x)) ∧
+      (invalidElem o k x = true → ∀ y, convScalar o k f x ≠ .ok y) := by
+    intro x
+    have h01 := (law.lt_iff _ _).mp law.zero_lt_one
+    have hle01 : o.lt o.one o.zero = false := by
+      cases h : o.lt o.one o.zero with
+      | false => rfl
+      | true => exact absurd h ((law.le_iff_not_lt _ _).mp h01.1)
+    have tp_case : (o.lt x o.zero || o.lt o.one x) = false →
+        (if o.beq x o.zero then Except.ok o.zero else if o.beq x o.one then .ok o.one
+          else if (o.le o.zero x && o.le x o.one) then (if o.beq f o.zero then .error Err.zeroDiv else .ok (o.tpFormula x f)) else .error Err.value)
+        = .ok (if (o.lt o.zero x && o.lt x o.one) then o.tpFormula x f else x) := by
+      intro hinv
+      simp only [Bool.or_eq_false_iff] at hinv
+      by_cases hz : o.beq x o.zero = true
+      · have e := (law.beq_iff _ _).mp hz
+        have : o.lt o.zero x = false := by
+          cases h : o.lt o.zero x with
+          | false => rfl
+          | true => exact absurd e.symm ((law.lt_iff _ _).mp h).2
+        rw [if_pos hz]
+        simp only [this, Bool.false_and, Bool.false_eq_true, if_false]
+        rw [e]
+      · have hz' : o.beq x o.zero = false := by simpa using hz
+        by_cases ho : o.beq x o.one = true
+        · have e := (law.beq_iff _ _).mp ho
+          have : o.lt x o.one = false := by
+            cases h : o.lt x o.one with
+            | false => rfl
+            | true => exact absurd e ((law.lt_iff _ _).mp h).2
+          rw [if_neg hz, if_pos ho]
+          simp only [this, Bool.and_false, Bool.false_eq_true, if_false]
+          rw [e]
+        · have ho' : o.beq x o.one = false := by simpa using ho
+          have l0 : o.le o.zero x = true := (law.le_iff_not_lt _ _).mpr (by simp [hinv.1])
+          have l1 : o.le x o.one = true := (law.le_iff_not_lt _ _).mpr (by simp [hinv.2])
+          have s0 : o.lt o.zero x = true := (law.lt_iff _ _).mpr ⟨l0, fun e => hz ((law.beq_iff _ _).mpr e.symm)⟩
+          have s1 : o.lt x o.one = true := (law.lt_iff _ _).mpr ⟨l1, fun e => ho ((law.beq_iff _ _).mpr e)⟩
+          simp [hz', ho', l0, l1, s0, s1, hf]
+    cases k with
+    | dur => simp [invalidElem, convScalar, convElem]
+    | rate => simp [invalidElem, convScalar, convElem, hf]
+    | timeProb =>
+      refine ⟨fun h => ?_, fun h y => ?_⟩
+      · simpa [convScalar, convElem, invalidElem] using tp_case (by simpa [invalidElem] using h)
+      · rw [C06_rejects_prob_outside_unit_interval law (k := .timeProb) rfl f x (by simpa [invalidElem] using h)]; simp
+    | beta =>
+      refine ⟨fun h => ?_, fun h y => ?_⟩
+      · simpa [convScalar, convElem, invalidElem] using tp_case (by simpa [invalidElem] using h)
+      · rw [C06_rejects_prob_outside_unit_interval law (k := .beta) rfl f x (by simpa [invalidElem] using h)]; simp
+    | rateProb =>
+      refine ⟨fun h => ?_, fun h y => ?_⟩
+      · simp only [invalidElem] at h
+        by_cases hz : o.beq x o.zero = true
+        · have e := (law.beq_iff _ _).mp hz
+          have : o.lt o.zero x = false := by
+            cases h' : o.lt o.zero x with
+            | false => rfl
+            | true => exact absurd e.symm ((law.lt_iff _ _).mp h').2
+          simp only [convScalar, convElem]
+          rw [if_pos hz]
+          simp only [this, Bool.false_eq_true, if_false]
+          rw [e]
+        · have hz' : o.beq x o.zero = false := by simpa using hz
+          have l0 : o.le o.zero x = true := (law.le_iff_not_lt _ _).mpr (by simp [h])
+          have s0 : o.lt o.zero x = true := (law.lt_iff _ _).mpr ⟨l0, fun e => hz ((law.beq_iff _ _).mpr e.symm)⟩
+          simp [convScalar, convElem, hz', s0, hf]
+      · rw [(C06_rejects_negative_rate law f x (by simpa [invalidElem] using h)).1]; simp
+  have hdur : (o.beq f o.zero && decide (k ≠ .dur)) = false := by simp [hf]
+  refine ⟨?_, ?_, ?_⟩
+  · simp only [convVal, hdur, Bool.false_eq_true, if_false]
+    constructor
+    · intro h x hx
+      by_cases hany : l.any (invalidElem o k) = true
+      · simp [hany] at h
+      · have : invalidElem o k x = false := by
+          cases hi : invalidElem o k x with
+          | false => rfl
+          | true => exact absurd (List.any_eq_true.mpr ⟨x, hx, hi⟩) hany
+        exact ⟨_, (elem x).1 this⟩
+    · intro h
+      have : l.any (invalidElem o k) = false := by
+        cases hany : l.any (invalidElem o k) with
+        | false => rfl
+        | true =>
+          obtain ⟨x, hx, hi⟩ := List.any_eq_true.mp hany
+          obtain ⟨y, hy⟩ := h x hx
+          exact absurd hy ((elem x).2 hi y)
+      simp [this]
+  · simp only [convVal, hdur, Bool.false_eq_true, if_false]
+    intro h x hx
+    by_cases hany : l.any (invalidElem o k) = true
+    · simp [hany] at h
+    · have : invalidElem o k x = false := by
+        cases hi : invalidElem o k x with
+        | false => rfl
+        | true => exact absurd (List.any_eq_true.mpr ⟨x, hx, hi⟩) hany
+      exact (elem x).1 this
+  · simp only [convVal, hdur, Bool.false_eq_true, if_false]
+
+/-! ### `time_prob`, `beta`, `rate_prob` over ℝ -/
+
+/-- what `update_values` computes for a probability strictly between 0 and 1 (the model's generic definition at ℝ) -/
+theorem C06_timeprob_values {k : Kind} (hk : k.isTimeProb = true) {v f : ℝ} (h0 : 0 < v) (h1 : v < 1) (hf : f ≠ 0) :
+    convScalar realOps k f v = .ok (1 - (1 - v) ^ (1 / f)) := by
+  rw [convScalar_tp_real hk h0 h1 hf, tp_real_rpow h1]
+
+/-- **Compounding.** The per-step probability compounded over the `factor` steps of the reference period
+    returns the original probability: `1 − (1 − values)^factor = p`. -/
+theorem C06_timeprob_compound {v f : ℝ} (hv : v < 1) (hf : f ≠ 0) : 1 - (1 - realOps.tpFormula v f) ^ f = v :=
+  tp_compound hv hf
+
+/-- **Range.** -/
+theorem C06_timeprob_range {v f : ℝ} (h0 : 0 ≤ v) (hv : v < 1) (hf : 0 < f) :
+    0 ≤ realOps.tpFormula v f ∧ realOps.tpFormula v f < 1 := tp_range h0 hv hf
+
+/-- **Monotone in dt.** With `factor = (self_dt/dt_parent)·(len unit/len parent)`: a longer parent step gives a larger
+    per-step probability. -/
+theorem C06_timeprob_mono_dt {v s lu lpu p1 p2 : ℝ} (h0 : 0 ≤ v) (hv : v < 1) (hs : 0 < s) (hlu : 0 < lu) (hlpu : 0 < lpu)
+    (hp1 : 0 < p1) (h12 : p1 ≤ p2) :
+    realOps.tpFormula v ((s / p1) * (lu / lpu)) ≤ realOps.tpFormula v ((s / p2) * (lu / lpu)) := by
+  have hp2 : 0 < p2 := lt_of_lt_of_le hp1 h12
+  apply tp_antitone_factor h0 hv (by positivity)
+  have : s / p2 ≤ s / p1 := div_le_div_of_nonneg_left hs.le hp1 h12
+  exact mul_le_mul_of_nonneg_right this (by positivity)
+
+/-- **Rate to probability** = `1 − exp(−rate·dt)` with the step length expressed in the rate's own unit. -/
+theorem C06_rateprob_formula {v s lu lpu p : ℝ} (hv : 0 < v) (hs : 0 < s) (hlu : 0 < lu) (hlpu : 0 < lpu) (hp : 0 < p) :
+    convScalar realOps .rateProb ((s / p) * (lu / lpu)) v = .ok (1 - Real.exp (-(v * (p * lpu) / (s * lu)))) := by
+  rw [convScalar_rp_real hv (by positivity), rp_real]
+  congr 3
+  field_simp
+
+theorem C06_rateprob_range {v f : ℝ} (hv : 0 ≤ v) (hf : 0 < f) : 0 ≤ realOps.rpFormula v f ∧ realOps.rpFormula v f < 1 :=
+  ⟨rp_nonneg hv hf, rp_lt_one v f⟩
+
+/-- **Round trip of a time probability**: converting by `f` and back by `1/f` is the identity. -/
+theorem C06_timeprob_to_roundtrip {v f : ℝ} (hv : v < 1) (hf : f ≠ 0) :
+    realOps.tpFormula (realOps.tpFormula v f) (1 / f) = v := tp_roundtrip hv hf
+
+/-- **Round trip, every kind except `rate_prob`** (scalar branch over ℝ; valid values; `f` and then `1/f`). -/
+theorem C06_to_roundtrip_partial (k : Kind) (hk : k ≠ .rateProb) {v f : ℝ} (hf : 0 < f)
+    (hv : k.isTimeProb = true → 0 ≤ v ∧ v ≤ 1) :
+    ∃ x, convScalar realOps k f v = .ok x ∧ convScalar realOps k (1 / f) x = .ok v := by
+  have hf0 : f ≠ 0 := ne_of_gt hf
+  have hf1 : (1 / f) ≠ 0 := by positivity
+  cases k with
+  | rateProb => exact absurd rfl hk
+  | dur => exact ⟨v * f, by simp [convScalar, realOps], by simp [convScalar, realOps]; field_simp⟩
+  | rate =>
+    refine ⟨v / f, by simp [convScalar, realOps, NumOps.zero, hf0], ?_⟩
+    simp [convScalar, realOps, NumOps.zero, hf0]
+  | timeProb | beta =>
+    all_goals
+      obtain ⟨h0, h1⟩ := hv rfl
+      rcases eq_or_lt_of_le h0 with e0 | h0'
+      · subst e0; exact ⟨0, by simp [convScalar, realOps, NumOps.zero], by simp [convScalar, realOps, NumOps.zero]⟩
+      · rcases eq_or_lt_of_le h1 with e1 | h1'
+        · subst e1; exact ⟨1, by simp [convScalar, realOps, NumOps.zero, NumOps.one], by simp [convScalar, realOps, NumOps.zero, NumOps.one]⟩
+        · obtain ⟨r0, r1⟩ := tp_range h0'.le h1' hf
+          have r0' : 0 < realOps.tpFormula v f := by
+            rw [tp_real]
+            have hL : Real.log (1 - v) < 0 := Real.log_neg (by linarith) (by linarith)
+            have : Real.log (1 - v) / f < 0 := div_neg_of_neg_of_pos hL hf
+            have := Real.exp_lt_exp.mpr this
+            rw [Real.exp_zero] at this
+            linarith
+          refine ⟨_, convScalar_tp_real (by rfl) h0' h1' hf0, ?_⟩
+          rw [convScalar_tp_real (by rfl) r0' r1 hf1, tp_roundtrip h1' hf0]
+
+/-- **As is, `rate_prob` does not round-trip**: `to` stores the probability `1 − exp(−v/f)` in `v` of an object that
+    is still a `rate_prob`; converting back yields a number below 1 whatever the rate was, so every rate ≥ 1 is lost. -/
+theorem C06_to_roundtrip_counterexample (v f : ℝ) (hv : 1 ≤ v) (hf : 0 < f) :
+    ∃ x y, convScalar realOps .rateProb f v = .ok x ∧ convScalar realOps .rateProb (1 / f) x = .ok y ∧ y ≠ v := by
+  have hf0 : f ≠ 0 := ne_of_gt hf
+  have hv0 : 0 < v := by linarith
+  have hx : 0 < realOps.rpFormula v f := by
+    rw [rp_real]
+    have : -v / f < 0 := div_neg_of_neg_of_pos (by linarith) hf
+    have := Real.exp_lt_exp.mpr this
+    rw [Real.exp_zero] at this
+    linarith
+  refine ⟨_, _, convScalar_rp_real hv0 hf0, convScalar_rp_real hx (by positivity), ?_⟩
+  have := rp_lt_one (realOps.rpFormula v f) (1 / f)
+  intro h; linarith
+
+/-! ### Non-vacuity -/
+
+/-- `ss.beta(0.1)` (per year) in a module that steps in days: year → day is defined, positive, and is the ratio of the lengths -/
+example : ∃ ly ld, unitLen "year" = some ly ∧ unitLen "day" = some ld ∧
+    timeRatio (some "year") (some 1) (some "day") (some 1) = .ok ((1 / 1) * (ly / ld)) ∧ 0 < ly / ld := by
+  cases hy : unitLen "year" with
+  | none => exact absurd hy (by decide +kernel)
+  | some ly =>
+    cases hd : unitLen "day" with
+    | none => exact absurd hd (by decide +kernel)
+    | some ld => exact ⟨ly, ld, rfl, rfl, timeRatio_known hy hd one_ne_zero, div_pos (unitLen_pos hy) (unitLen_pos hd)⟩
+
+/-- hypotheses of `C06_dur_steps`/`C06_init_dur` are met by `ss.dur(10, 'week')` in a (`day`, dt = 1/2) parent -/
+example : (unitLen "week").isSome = true ∧ (unitLen "day").isSome = true ∧
+    canonUnit (some "week") = .ok (some "week") ∧ canonUnit (some "day") = .ok (some "day") := by decide +kernel
+
+/-- hypotheses of `C06_to_roundtrip`: a weekly duration converted to (month, dt = 2) and back (kernel-evaluated on the model) -/
+example : ((mk (α := Rat) .dur (.scalar 10) (some "week") none none (some 1)).toOption.bind fun t =>
+    (convertTo ratOps t (some "month") (some 2)).toOption.bind fun y =>
+    (convertTo ratOps y (some "week") (some 1)).toOption.map fun z =>
+      (match y.v, z.v with | .scalar a, .scalar b => decide (a ≠ 10 ∧ b = 10) | _, _ => false)) = some true := by decide +kernel
+
+/-- the probability theorems are not vacuous: p = 1/10, factor = 365 -/
+example : (0:ℝ) ≤ 1/10 ∧ (1/10 : ℝ) < 1 ∧ (0:ℝ) < 365 := by norm_num
+
+/-- lawful comparisons exist (ℚ and ℝ) -/
+example : LawfulOrd ratOps ∧ LawfulOrd realOps := ⟨ratOps_lawful, realOps_lawful⟩
 
 end StarsimModel.C06
